@@ -42,6 +42,7 @@ def mk_seq(first, depth):
         def h(a0: bool, q0: int, c0: bool, a1: bool, q1: int, c1: bool, e1: int, e2: int, e3: int, peer_mid: bool) -> None:
             assert 0 <= q0 <= 2 and 0 <= q1 <= 2 and (a0 or (q0 == 0 and not c0)) and (a1 or (q1 == 0 and not c1))
             assert 0 <= e1 < 2 * NK and 0 <= e2 < 2 * NK and 0 <= e3 < 2 * NK
+            assert depth < 3 or e1 < 14         # depth 3: the stranger's ACK / Reset is the first or the last event, not the middle one
             evs = ([first] if first is not None else []) + [e1, e2, e3]
             evs = evs[:depth]
             with SimLoop() as loop:
